@@ -3,8 +3,9 @@
   The model decides "inside the convex hull" by searching a non-degenerate triangle of data points containing the query
   (exact rationals).  Proved: soundness (a containing triangle exhibits the query as a convex combination of data points),
   invariance under the mean/std normalisation and under any positive scaling + offset of the coordinates.
-  NOT proved (`_partial`): completeness (every point of the convex hull lies in such a triangle — Carathéodory); it is
-  covered by agreement with an independent exact hull construction in the correspondence.  Delaunay/Qhull and the SciPy
+  Completeness (every convex combination of the data lies in such a triangle when the data are not all collinear — planar
+  Carathéodory, proved elementarily in Lemmas/Hull.lean) makes the model's predicate EXACTLY "p ∈ convexHull ℚ S"
+  (`inHull_iff_mem_convexHull`, Mathlib's `convexHull`).  Delaunay/Qhull and the SciPy
   interpolators inside project_grid are trusted contracts; the known finding F1 (cubic overshoot) is in known_findings.json.
 -/
 import VerdeModel.Model.Hull
@@ -12,6 +13,8 @@ import VerdeModel.Lemmas.MinMax
 import VerdeModel.Lemmas.Coords
 import VerdeModel.Model.Blocks
 import Mathlib.Algebra.BigOperators.Group.List.Basic
+import VerdeModel.Lemmas.Hull
+import Mathlib.Analysis.Convex.Hull
 namespace Verde.C16
 open Verde
 
@@ -143,7 +146,93 @@ theorem project_grid_region (pe pn : List Rat) (shape : Nat × Nat) (r : Region)
     projectGridLines pe pn shape none none = gridLines [r.w, r.e, r.s, r.n] ⟨none, some [sn, se], .spacing, false⟩ := by
   simp [projectGridLines, hr, hsp, checkRegion, not_lt.mpr hwe, not_lt.mpr hsn, bind, Except.bind, pure, Except.pure]
 
+/-- The data are not all collinear (the property's "non-degenerate hull"). -/
+def NonDegenerate (S : List Pt) : Prop := ∃ a ∈ S, ∃ b ∈ S, ∃ c ∈ S, orient a b c ≠ 0
+
+/-- **Completeness (planar Carathéodory).**  If the data are not all collinear, every convex combination of the data points —
+    with any number of points and any non-negative weights adding up to one — is accepted by the triangle search. -/
+theorem inHull_complete (S : List Pt) (p : Pt) (hnd : NonDegenerate S) (h : IsConvComb S p) : inHull S p = true := by
+  rw [inHull_iff_inTri]
+  obtain ⟨a, ha, b, hb, c, hc, hd⟩ := hnd
+  -- the vertex `a` lies in a positively oriented triangle of data points
+  have hq : InTri S a := by
+    rcases lt_or_gt_of_ne hd with hneg | hpos
+    · refine ⟨a, ha, c, hc, b, hb, ?_⟩
+      refine ⟨by rw [orient_swap23]; linarith, by rw [orient_swap23]; linarith, ?_, ?_⟩ <;> simp [orient]
+    · refine ⟨a, ha, b, hb, c, hc, hpos, hpos.le, ?_, ?_⟩ <;> simp [orient]
+  obtain ⟨w, hlen, hw, hsum, rfl⟩ := h
+  have := closed_towards_sum S (InTri S) (fun q hq d hd t ht0 ht1 => inTri_step S q d t ht0 ht1 hd hq)
+    S w a (fun _ hs => hs) hlen hw (by rw [hsum]) hq
+  simpa [hsum] using this
+
+/-- Three-point convex combinations are convex combinations of the whole list. -/
+theorem isConvComb_of_three (S : List Pt) (p a b c : Pt) (ha : a ∈ S) (hb : b ∈ S) (hc : c ∈ S) (α β γ : Rat)
+    (hα : 0 ≤ α) (hβ : 0 ≤ β) (hγ : 0 ≤ γ) (hsum : α + β + γ = 1)
+    (h1 : p.1 = α * a.1 + β * b.1 + γ * c.1) (h2 : p.2 = α * a.2 + β * b.2 + γ * c.2) : IsConvComb S p := by
+  by_cases h0 : β + γ = 0
+  · have hb0 : β = 0 := by linarith
+    have hc0 : γ = 0 := by linarith
+    have ha1 : α = 1 := by linarith
+    have : p = a := by ext <;> simp [h1, h2, ha1, hb0, hc0]
+    rw [this]; exact isConvComb_mem S a ha
+  · have hpos : 0 < β + γ := lt_of_le_of_ne (by linarith) (Ne.symm h0)
+    have hr := isConvComb_lerp S b c (γ / (β + γ)) (div_nonneg hγ hpos.le) (by rw [div_le_one hpos]; linarith)
+      (isConvComb_mem S b hb) (isConvComb_mem S c hc)
+    have := isConvComb_lerp S a _ (β + γ) hpos.le (by linarith) (isConvComb_mem S a ha) hr
+    have e : p = lerp (β + γ) a (lerp (γ / (β + γ)) b c) := by
+      have hα' : α = 1 - (β + γ) := by linarith
+      ext
+      · simp only [lerp, h1, hα']; field_simp; ring
+      · simp only [lerp, h2, hα']; field_simp; ring
+    rw [e]; exact this
+
+/-- **The model's hull predicate is exactly membership in the convex hull** (as convex combinations of the data). -/
+theorem inHull_iff_convex_combination (S : List Pt) (p : Pt) (hnd : NonDegenerate S) :
+    inHull S p = true ↔ IsConvComb S p := by
+  constructor
+  · intro h
+    obtain ⟨a, ha, b, hb, c, hc, α, β, γ, hα, hβ, hγ, hsum, h1, h2⟩ := inHull_sound S p h
+    exact isConvComb_of_three S p a b c ha hb hc α β γ hα hβ hγ hsum h1 h2
+  · exact inHull_complete S p hnd
+
+theorem lerp_eq_smul (t : Rat) (q d : Pt) : lerp t q d = (1 - t) • q + t • d := by
+  ext <;> simp [lerp]
+
+/-- Convex combinations of the list = Mathlib's `convexHull` of its set of members. -/
+theorem isConvComb_iff_mem_convexHull (S : List Pt) (p : Pt) :
+    IsConvComb S p ↔ p ∈ convexHull ℚ {x : ℚ × ℚ | x ∈ S} := by
+  constructor
+  · rintro ⟨w, hlen, hw, hsum, rfl⟩
+    cases S with
+    | nil =>
+      have : w = [] := List.length_eq_zero_iff.mp (by simpa using hlen)
+      subst this; simp at hsum
+    | cons s S =>
+      have := closed_towards_sum (s :: S) (fun q => q ∈ convexHull ℚ {x : ℚ × ℚ | x ∈ s :: S})
+        (fun q hq d hd t ht0 ht1 => by
+          rw [lerp_eq_smul]
+          exact (convex_convexHull ℚ _) hq (subset_convexHull ℚ _ hd) (by linarith) ht0 (by ring))
+        (s :: S) w s (fun _ h => h) hlen hw (by rw [hsum]) (subset_convexHull ℚ _ List.mem_cons_self)
+      simpa [hsum] using this
+  · intro h
+    refine convexHull_min (s := {x : ℚ × ℚ | x ∈ S}) (t := {q | IsConvComb S q}) (fun x hx => isConvComb_mem S x hx) ?_ h
+    intro x hx y hy a b ha hb hab
+    have := isConvComb_lerp S x y b hb (by linarith) hx hy
+    rw [lerp_eq_smul] at this
+    have ea : a = 1 - b := by linarith
+    rw [ea]; exact this
+
+/-- **C16, first clause, for the model:** `convexhull_mask`'s model accepts exactly the points of the convex hull of the data
+    (non-degenerate data; boundary included). -/
+theorem inHull_iff_mem_convexHull (S : List Pt) (p : Pt) (hnd : NonDegenerate S) :
+    inHull S p = true ↔ p ∈ convexHull ℚ {x : ℚ × ℚ | x ∈ S} := by
+  rw [inHull_iff_convex_combination S p hnd, isConvComb_iff_mem_convexHull]
+
 /-! Non-vacuity -/
+example : NonDegenerate [(0, 0), (4, 0), (0, 4), (4, 4)] :=
+  ⟨(0, 0), by simp, (4, 0), by simp, (0, 4), by simp, by decide +kernel⟩
+example : IsConvComb [(0, 0), (4, 0), (0, 4), (4, 4)] (2, 2) :=
+  ⟨[1/4, 1/4, 1/4, 1/4], rfl, by intro x hx; simp at hx; subst hx; norm_num, by norm_num, by simp [wsum]; norm_num⟩
 example : inHull [(0, 0), (4, 0), (0, 4), (4, 4)] (2, 2) = true ∧ inHull [(0, 0), (4, 0), (0, 4), (4, 4)] (5, 5) = false := by
   decide +kernel
 example : inTriangle (1, 1) (0, 0) (4, 0) (0, 4) = true := by decide +kernel
